@@ -92,7 +92,7 @@ def balanced_outward(source: str, pos: int) -> list:
                 push(result, (left[0], end))
             if left:
                 release_range(pool, left)
-            if not stack:
+            if not stack and result:
                 return False
         elif token_type == TokenType.PropertyName:
             if prop[0]:
